@@ -14,6 +14,7 @@ import (
 	"time"
 
 	"github.com/bluenviron/mediamtx/internal/defs"
+	"github.com/bluenviron/mediamtx/internal/staticsources"
 	kit "github.com/bluenviron/mediamtx/internal/verifkit"
 	"pgregory.net/rapid"
 )
@@ -127,7 +128,9 @@ var c20SideNames = []string{"both", "start-only", "un-only"}
 // c20HookCfg says which sides of each pair are configured in a case.
 type c20HookCfg struct {
 	sides      [c20NPairs]int
-	readyAlias bool // use the deprecated names runOnReady / runOnNotReady
+	readyAlias bool   // use the deprecated names runOnReady / runOnNotReady
+	startCmd   string // command of the start side: long-lived, or one that exits by itself at once
+	restart    bool   // runOn*Restart
 }
 
 func (h c20HookCfg) hasStart(k int) bool { return h.sides[k] != c20UnOnly }
@@ -141,6 +144,7 @@ type c20Conf struct {
 	aa       bool
 	demand   bool
 	shortTO  bool // on-demand start timeout is short (the demand always times out)
+	static   bool // static source (an RTSP URL nobody listens on); the harness plays the part of the source
 	override bool
 	hot      int
 	cold     int
@@ -150,7 +154,11 @@ type c20Conf struct {
 func (c *c20Conf) yaml(h c20HookCfg) string {
 	b := &strings.Builder{}
 	fmt.Fprintf(b, "  %q:\n", c.key)
-	fmt.Fprintf(b, "    overridePublisher: %v\n", c.override)
+	if c.static {
+		b.WriteString("    source: rtsp://127.0.0.1:9/c20\n")
+	} else {
+		fmt.Fprintf(b, "    overridePublisher: %v\n", c.override)
+	}
 	if c.aa {
 		b.WriteString("    alwaysAvailable: yes\n")
 		b.WriteString("    alwaysAvailableTracks:\n      - codec: LPCM\n        sampleRate: 48000\n        channelCount: 2\n")
@@ -160,10 +168,10 @@ func (c *c20Conf) yaml(h c20HookCfg) string {
 	fmt.Fprintf(b, "    sourceOnDemandStartTimeout: %ds\n", 11+c.cold)
 	if !c.regex {
 		// "a path with a regular expression does not support option 'runOnInit'"
-		fmt.Fprintf(b, "    runOnInit: %s\n", c20LongCmd)
+		fmt.Fprintf(b, "    runOnInit: %s\n    runOnInitRestart: %v\n", h.startCmd, h.restart)
 	}
 	if c.demand {
-		fmt.Fprintf(b, "    runOnDemand: %s\n", c20LongCmd)
+		fmt.Fprintf(b, "    runOnDemand: %s\n    runOnDemandRestart: %v\n", h.startCmd, h.restart)
 		if h.hasUn(c20Demand) {
 			b.WriteString("    runOnUnDemand: \"true\"\n")
 		}
@@ -179,13 +187,13 @@ func (c *c20Conf) yaml(h c20HookCfg) string {
 		on, un = "runOnReady", "runOnNotReady"
 	}
 	if h.hasStart(c20Avail) {
-		fmt.Fprintf(b, "    %s: %s\n", on, c20LongCmd)
+		fmt.Fprintf(b, "    %s: %s\n    %sRestart: %v\n", on, h.startCmd, on, h.restart)
 	}
 	if h.hasUn(c20Avail) {
 		fmt.Fprintf(b, "    %s: \"true\"\n", un)
 	}
 	if h.hasStart(c20Online) {
-		fmt.Fprintf(b, "    runOnOnline: %s\n", c20LongCmd)
+		fmt.Fprintf(b, "    runOnOnline: %s\n    runOnOnlineRestart: %v\n", h.startCmd, h.restart)
 	}
 	if h.hasUn(c20Online) {
 		b.WriteString("    runOnOffline: \"true\"\n")
@@ -351,11 +359,14 @@ type c20PathM struct {
 	created, destroyed int
 	pairs              [c20NPairs]c20Pair
 	pub                *vcAttachedPub
+	srcReady           bool // static source: the source has declared itself ready
 	readers            []*c20Rdr
 	held               []*c20Req
 }
 
-func (p *c20PathM) streamAvailable() bool { return p.exists && (p.pub != nil || p.conf.aa) }
+func (p *c20PathM) streamAvailable() bool {
+	return p.exists && (p.pub != nil || p.srcReady || p.conf.aa)
+}
 
 // ---------------------------------------------------------------- the property
 
@@ -371,6 +382,8 @@ func TestVerifC20PathPairs(t *testing.T) {
 		h.sides[c20Avail] = rapid.SampledFrom([]int{c20Both, c20Both, c20StartOnly, c20UnOnly}).Draw(t, "availableSides")
 		h.sides[c20Online] = rapid.SampledFrom([]int{c20Both, c20Both, c20StartOnly, c20UnOnly}).Draw(t, "onlineSides")
 		h.readyAlias = rapid.Bool().Draw(t, "readyAlias")
+		h.startCmd = rapid.SampledFrom([]string{c20LongCmd, c20LongCmd, c20LongCmd, "\"true\""}).Draw(t, "startCmd")
+		h.restart = rapid.Bool().Draw(t, "restart")
 
 		all := []*c20Conf{
 			{key: "plain", names: []string{"plain"}},
@@ -379,13 +392,17 @@ func TestVerifC20PathPairs(t *testing.T) {
 			{key: "dss", names: []string{"dss"}, demand: true, shortTO: true},
 			{key: "~^rx/(.+)$", names: []string{"rx/a", "rx/b"}, regex: true},
 			{key: "~^rd/(.+)$", names: []string{"rd/a"}, regex: true, demand: true},
+			{key: "src", names: []string{"src"}, static: true},
+			{key: "srcaa", names: []string{"srcaa"}, static: true, aa: true},
 		}
 		nv := rapid.IntRange(1, 3).Draw(t, "variants")
-		perm := rapid.Permutation([]int{0, 1, 2, 3, 4, 5}).Draw(t, "variantOrder")
+		perm := rapid.Permutation([]int{0, 1, 2, 3, 4, 5, 6, 7}).Draw(t, "variantOrder")
 		var confs []*c20Conf
 		for _, i := range perm[:nv] {
 			c := all[i]
-			c.override = rapid.Bool().Draw(t, "override-"+c.key)
+			if !c.static {
+				c.override = rapid.Bool().Draw(t, "override-"+c.key)
+			}
 			c.present = true
 			confs = append(confs, c)
 		}
@@ -415,8 +432,8 @@ func TestVerifC20PathPairs(t *testing.T) {
 			for _, c := range confs {
 				ks = append(ks, fmt.Sprintf("%s(override=%v)", c.key, c.override))
 			}
-			return fmt.Sprintf("[demand=%s available=%s online=%s alias=%v] %s", c20SideNames[h.sides[c20Demand]],
-				c20SideNames[h.sides[c20Avail]], c20SideNames[h.sides[c20Online]], h.readyAlias, strings.Join(ks, ","))
+			return fmt.Sprintf("[demand=%s available=%s online=%s alias=%v start=%s restart=%v] %s", c20SideNames[h.sides[c20Demand]],
+				c20SideNames[h.sides[c20Avail]], c20SideNames[h.sides[c20Online]], h.readyAlias, h.startCmd, h.restart, strings.Join(ks, ","))
 		}
 
 		pathConfs, err := vcPathConfs(render())
@@ -516,6 +533,7 @@ func TestVerifC20PathPairs(t *testing.T) {
 			p.destroyed++
 			p.exists = false
 			p.pub = nil
+			p.srcReady = false
 			p.readers = nil
 			for _, q := range p.held {
 				awaitReq(q, "when its path was closed")
@@ -650,6 +668,17 @@ func TestVerifC20PathPairs(t *testing.T) {
 			return q
 		}
 
+		staticHandler := func(p *c20PathM) *staticsources.Handler {
+			pa := pm.PathObj(p.name)
+			if pa == nil {
+				fail(p.name, "harness precondition (C15): static path is not live")
+			}
+			if _, err := pa.APIPathsGet(pathAPIPathsGetReq{}); err != nil { // synchronises with the path goroutine
+				fail(p.name, "harness precondition: %v", err)
+			}
+			return pa.source.(*staticsources.Handler)
+		}
+
 		// request = what the documentation says about a reader / describe arriving at a path
 		request := func(p *c20PathM, kind string) {
 			if !p.exists {
@@ -732,7 +761,7 @@ func TestVerifC20PathPairs(t *testing.T) {
 
 		t.Repeat(map[string]func(*rapid.T){
 			"attachPub": func(t *rapid.T) {
-				p := pick(t, "path", func(p *c20PathM) bool { return true })
+				p := pick(t, "path", func(p *c20PathM) bool { return !p.conf.static })
 				hist = append(hist, "attachPub "+p.name)
 				if !p.exists {
 					createInstance(p)
@@ -797,6 +826,33 @@ func TestVerifC20PathPairs(t *testing.T) {
 				}
 				settleRegex(p)
 				finish("after detachPub " + p.name)
+			},
+			// the harness plays the part of the static source instance, through the real staticsources.Handler
+			"sourceReady": func(t *rapid.T) {
+				p := pick(t, "path", func(p *c20PathM) bool { return p.conf.static && !p.srcReady })
+				hist = append(hist, "sourceReady "+p.name)
+				res := staticHandler(p).SetReady(defs.PathSourceStaticSetReadyReq{Desc: vcDescLPCM(), ReplaceNTP: true})
+				if res.Err != nil {
+					fail(p.name, "harness precondition: the path refused its static source: %v", res.Err)
+				}
+				p.srcReady = true
+				if !p.conf.aa {
+					openPair(p, c20Avail)
+				}
+				openPair(p, c20Online)
+				finish("after sourceReady " + p.name)
+			},
+			"sourceNotReady": func(t *rapid.T) {
+				p := pick(t, "path", func(p *c20PathM) bool { return p.conf.static && p.srcReady })
+				hist = append(hist, "sourceNotReady "+p.name)
+				staticHandler(p).SetNotReady(defs.PathSourceStaticSetNotReadyReq{})
+				p.srcReady = false
+				closePair(p, c20Online)
+				if !p.conf.aa {
+					closePair(p, c20Avail)
+					p.readers = nil
+				}
+				finish("after sourceNotReady " + p.name)
 			},
 			"read": func(t *rapid.T) {
 				p := pick(t, "path", func(p *c20PathM) bool { return true })
@@ -921,6 +977,8 @@ func TestVerifC20PathPairs(t *testing.T) {
 		add(sawReplace, "publisher-replaced")
 		add(sawIdleClose, "regex-idle-close")
 		add(h.readyAlias, "deprecated-ready-names")
+		add(h.startCmd != c20LongCmd, "start-command-exits-by-itself")
+		add(h.restart, "restart-enabled")
 		for _, c := range confs {
 			cls = append(cls, "variant:"+c.key)
 		}
